@@ -51,7 +51,14 @@ def lift(f, *args, **kw):
     for a in args:
         if isinstance(a, fd.Node) and a not in nodes:
             nodes.append(a)
-    shape = tuple(len(n.values) for n in nodes)
+    from pyvc.sym import vkey
+
+    # the table is reusable only for operands with the very same value lists (same order)
+    shape = tuple(
+        ("node", nodes.index(a), tuple(repr(vkey(x)) for x in a.values)) if isinstance(a, fd.Node)
+        else ("const", repr(vkey(a)))
+        for a in args
+    )
 
     def wrap(r):
         if isinstance(r, fd.Node) and len(r.values) == 2 and r.values[0] is False and r.values[1] is True:
